@@ -182,6 +182,19 @@ func isPrintableASCII(s string) bool {
 	return true
 }
 
+// qBackslashName: the names for which net/mail.Address.String() produces a Q encoded-word with a raw backslash:
+// the name needs encoding (a byte outside printable ASCII), contains a backslash and none of the characters for
+// which Address.String() switches to B-encoding.
+func qBackslashName(name string) bool {
+	needs := false
+	for i := 0; i < len(name); i++ {
+		if name[i] >= 0x7f || (name[i] < 0x20 && name[i] != '\t') {
+			needs = true
+		}
+	}
+	return needs && strings.Contains(name, "\\") && !strings.ContainsAny(name, "\"#$%&'(),.:;<>@[]^`{|}~")
+}
+
 func wsNorm(s string) string { return strings.Join(strings.Fields(s), " ") }
 
 func sanitizeName(s string) string {
@@ -280,6 +293,15 @@ func runCase(r *hx.Run, c hx.Case) {
 				// the display name, read by the standard library's address parser (not go-mail's code), is the string
 				// that was set (a name of blanks only is no name at all)
 				l, perr := mail.ParseAddressList(values[i])
+				if perr != nil && qBackslashName(val) {
+					// net/mail's Address.String() (go1.23) Q-encodes a name that needs encoding and contains a backslash but
+					// none of the characters that make it choose B-encoding, and leaves the backslash raw inside the
+					// encoded-word; net/mail's own parser (and every reader that applies RFC 2047 section 5 (3)) then cannot read
+					// the phrase.  The stored name is right, the header section is well-formed, the rendered name is not
+					// reliably readable: known finding (standard library), class below.
+					r.Fail(c.ID, "dispname-backslash-q-encoded-word", fmt.Sprintf("%s: %s = %q: the display name %q is Q-encoded with a raw backslash (%v)", where, n, values[i], val, perr))
+					continue
+				}
 				found := false
 				for _, a := range l {
 					if a.Address == ff[1] {
@@ -486,7 +508,7 @@ func values(r *hx.Run, thorough bool) [][]byte {
 	fixed := []string{"", "x\r\nX-Injected: 1", "x\nX-Injected: 1", "x\rX-Injected: 1", "x\r\n\r\nbody", "a\x00b", "=?utf-8?q?a?=",
 		"na\xc3\xafve r\xc3\xa9sum\xc3\xa9", "\xff\xfe invalid utf8", "tab\there", "  leading and trailing  ", "a;b=c\"d\\e", "quote\"inside",
 		strings.Repeat("w", 80), strings.Repeat("long word ", 30), strings.Repeat("\xc3\xa4", 70), strings.Repeat("\xe2\x82\xac", 40),
-		"C:\\dir\\file", "a\\b", "back\\\\slash", "(comment) name", "name (comment)", "a, b", "<angle>", "semi;colon", "at@sign", "dot.ted name",
+		"\xc3\xa9\\x", "J\xc3\xbcrgen \\ M", "C:\\dir\\file", "a\\b", "back\\\\slash", "(comment) name", "name (comment)", "a, b", "<angle>", "semi;colon", "at@sign", "dot.ted name",
 		"c\r\nX: 2", "<id@host>", "caf\xc3\xa9 \r\n folded", "\r\n", "\r", "\n", "a\r\n b",
 		// long runs of blanks: whitespace-only continuation lines must not turn into empty lines
 		"Hello" + strings.Repeat(" ", 74) + "world", "Hello" + strings.Repeat(" ", 75) + "world", "Hello" + strings.Repeat(" ", 76) + "world",
